@@ -189,8 +189,12 @@ func (e *Exec) load(p Ptr) Value {
 	if p.idx == nil {
 		return copyVal(v)
 	}
+	p.idx = e.subst(p.idx)
 	arr := v.(*ArrayV)
 	if p.idx.IsConst() {
+		if p.idx.val >= uint64(len(arr.e)) {
+			panic(mkEnd("engine", "load beyond backing array"))
+		}
 		return copyVal(arr.e[p.idx.val])
 	}
 	var r *Term
@@ -218,7 +222,11 @@ func (e *Exec) store(p Ptr, v Value) {
 		return
 	}
 	arr := get().(*ArrayV)
+	p.idx = e.subst(p.idx)
 	if p.idx.IsConst() {
+		if p.idx.val >= uint64(len(arr.e)) {
+			panic(mkEnd("engine", "store beyond backing array"))
+		}
 		arr.e[p.idx.val] = copyVal(v)
 		return
 	}
